@@ -7,7 +7,7 @@ recursive template and the `__RECINT_LIMB_SIZE`, `__RECINT_LIMB_SIZE+1` speciali
 level `n` (no bound on K) and all well-formed operands; carries and borrows are exact (`c2n` reads a `bool` as 0/1).
 -/
 import GivaroModel.Lemmas.RecIntConv
-import GivaroModel.Lemmas.RecIntInvMod
+import GivaroModel.Lemmas.RecIntMixed
 namespace Givaro.Props.C06
 open Givaro.Model.RecInt
 
@@ -386,6 +386,46 @@ theorem arazi_qi_exact (t : Nat) {n : Nat} (a : RU n) (ha : WF a) (hodd : val a 
 example : ∃ (b c : RU 1), WF b ∧ WF c ∧ val c ≠ 0 ∧ Nat.gcd (val b) (val c) = 1 ∧ val c % 2 = 1 :=
   ⟨zero 1, ofLimb 1 1, by simp [zero, WF, B64], by simp [ofLimb, zero, WF, B64], by simp [ofLimb, zero, val],
    by simp [ofLimb, zero, val], by simp [ofLimb, zero, val]⟩
+
+/-! ### mixed operands: recursive integer ⊗ built-in scalar -/
+/-- For every size, every well-formed `a` and **every value `w` of every built-in integral type** (`|w| < 2^64` covers u8 … s64 and
+    bool), the mixed operators and named forms of `ruint<K>` — `a + w`, `w + a`, `a += w`, `add(r, a, w)`; `a - w`, `a -= w`, `sub`;
+    `w - a`; `a * w`, `w * a`, `a *= w`, `mul`; `cmp(a, w)` and the six relations; `a / w`, `a /= w`, `div_q`; `a % w`, `a %= w`,
+    `div_r`; `a << w`, `a >> w` — compute: convert the scalar to ℤ by its C++ value, operate in ℤ (truncated division), reduce modulo
+    `2^(2^K)`.  The model is the code after fixes/C06_11…14 (sign dispatch on the magnitude `limb(0) - limb(c)`). -/
+theorem mixed_ops_exact (t : Nat) {n : Nat} (a : RU n) (w : Int) (ha : WF a) (h1 : -(2 : Int) ^ 64 < w) (h2 : w < (2 : Int) ^ 64) :
+    (WF (add_s a w) ∧ (val (add_s a w) : Int) = ((val a : Int) + w) % Bn n) ∧
+    (WF (sub_s a w) ∧ (val (sub_s a w) : Int) = ((val a : Int) - w) % Bn n) ∧
+    (WF (rsub_s a w) ∧ (val (rsub_s a w) : Int) = (w - (val a : Int)) % Bn n) ∧
+    (WF (mul_s a w) ∧ (val (mul_s a w) : Int) = ((val a : Int) * w) % Bn n) ∧
+    ((cmp_s a w = -1 ∧ (val a : Int) < w) ∨ (cmp_s a w = 0 ∧ (val a : Int) = w) ∨ (cmp_s a w = 1 ∧ (val a : Int) > w)) ∧
+    (w ≠ 0 → (WF (divq_s t a w) ∧ (val (divq_s t a w) : Int) = (Int.tdiv (val a) w) % Bn n) ∧
+             (WF (mod_s t a w) ∧ (val (mod_s t a w) : Int) = Int.tmod (val a) w)) ∧
+    (0 ≤ w → (WF (left_shift a w.toNat) ∧ val (left_shift a w.toNat) = (val a * 2 ^ w.toNat) % Bn n) ∧
+             (WF (right_shift a w.toNat) ∧ val (right_shift a w.toNat) = val a / 2 ^ w.toNat)) :=
+  ⟨add_s_ok a w ha h1 h2, sub_s_ok a w ha h1 h2, rsub_s_ok a w ha h1 h2, mul_s_ok a w ha h1 h2, cmp_s_ok a w ha h2,
+   fun h0 => ⟨divq_s_ok t a w ha h1 h2 h0, mod_s_ok t a w ha h1 h2 h0⟩,
+   fun _ => ⟨(shift_ok n a w.toNat ha).1, (shift_ok n a w.toNat ha).2⟩⟩
+
+/-- `rint<K>` stores the two's-complement image and forwards `+ − *` with a scalar to the same functions: on the signed readings
+    `sval`, the result is the two's-complement wrap of the exact integer result, for every scalar value of every built-in type -/
+theorem mixed_ops_exact_signed {n : Nat} (a : RU n) (w : Int) (ha : WF a) (h1 : -(2 : Int) ^ 64 < w) (h2 : w < (2 : Int) ^ 64) :
+    let wrap (v : Int) : Int := if 2 * (v % (Bn n : Int)) < Bn n then v % (Bn n : Int) else v % (Bn n : Int) - Bn n
+    sval (add_s a w) = wrap (sval a + w) ∧ sval (sub_s a w) = wrap (sval a - w) ∧ sval (rsub_s a w) = wrap (w - sval a) ∧
+    sval (mul_s a w) = wrap (sval a * w) := by
+  intro wrap
+  have hs := sval_mod a
+  have e1 : ((val a : Int) + w) % Bn n = (sval a + w) % Bn n := by rw [Int.add_emod, ← hs, ← Int.add_emod]
+  have e2 : ((val a : Int) - w) % Bn n = (sval a - w) % Bn n := by rw [Int.sub_emod, ← hs, ← Int.sub_emod]
+  have e3 : (w - (val a : Int)) % Bn n = (w - sval a) % Bn n := by rw [Int.sub_emod, ← hs, ← Int.sub_emod]
+  have e4 : ((val a : Int) * w) % Bn n = (sval a * w) % Bn n := by rw [Int.mul_emod, ← hs, ← Int.mul_emod]
+  refine ⟨?_, ?_, ?_, ?_⟩
+  · rw [sval_of_mod _ _ ((add_s_ok a w ha h1 h2).2.trans e1)]
+  · rw [sval_of_mod _ _ ((sub_s_ok a w ha h1 h2).2.trans e2)]
+  · rw [sval_of_mod _ _ ((rsub_s_ok a w ha h1 h2).2.trans e3)]
+  · rw [sval_of_mod _ _ ((mul_s_ok a w ha h1 h2).2.trans e4)]
+
+example : ∃ w : Int, -(2 : Int) ^ 64 < w ∧ w < (2 : Int) ^ 64 ∧ w < 0 ∧ w ≠ 0 := ⟨-2147483648, by decide, by decide, by decide, by decide⟩
 
 -- non-vacuity: well-formed operands exist at a recursive level, and the carries really occur
 example : ∃ b c : RU 2, WF b ∧ WF c ∧ (add b c).2 = true :=
